@@ -41,6 +41,8 @@ typedef struct {
     char *name;
     uint16_t slot;
     char *struct_type;  /* Struct type name for field resolution (NULL if not a struct) */
+    int match_union;    /* match binding: index into cg->unions of the matched union, -1 otherwise */
+    int match_variant;  /* match binding: index of the variant this binding stands for */
 } Local;
 
 typedef struct {
@@ -84,6 +86,7 @@ typedef struct {
     char **variant_names;
     int *variant_field_counts;
     char ***variant_field_names;
+    char ***variant_field_type_names;  /* struct type names of struct-typed variant fields (may be NULL) */
     uint32_t def_idx;
 } CgUnionDef;
 
@@ -251,8 +254,19 @@ static uint16_t local_add(CG *cg, const char *name, int line) {
     cg->locals[slot].name = (char *)name;
     cg->locals[slot].slot = slot;
     cg->locals[slot].struct_type = NULL;
+    cg->locals[slot].match_union = -1;
+    cg->locals[slot].match_variant = -1;
     cg->local_count++;
     return slot;
+}
+
+/* The innermost local of that name, or NULL */
+static Local *local_entry(CG *cg, const char *name) {
+    for (int i = cg->local_count - 1; i >= 0; i--) {
+        if (strcmp(cg->locals[i].name, name) == 0)
+            return &cg->locals[i];
+    }
+    return NULL;
 }
 
 /* Find the struct type name for a local variable (for field access resolution) */
@@ -368,6 +382,22 @@ static const char *infer_expr_struct_type(CG *cg, ASTNode *node) {
     }
 
     if (node->type == AST_FIELD_ACCESS) {
+        /* <match binding>.<field>: the field's struct type comes from the bound variant */
+        if (node->as.field_access.object->type == AST_IDENTIFIER) {
+            Local *lb = local_entry(cg, node->as.field_access.object->as.identifier);
+            if (lb && lb->match_union >= 0) {
+                CgUnionDef *bud = &cg->unions[lb->match_union];
+                int bv = lb->match_variant;
+                for (int fi = 0; fi < bud->variant_field_counts[bv]; fi++) {
+                    if (strcmp(bud->variant_field_names[bv][fi], node->as.field_access.field_name) == 0) {
+                        if (bud->variant_field_type_names && bud->variant_field_type_names[bv])
+                            return bud->variant_field_type_names[bv][fi];
+                        return NULL;
+                    }
+                }
+                return NULL;
+            }
+        }
         /* Recursively determine: what struct type does the object have? */
         const char *obj_type = infer_expr_struct_type(cg, node->as.field_access.object);
         if (obj_type) {
@@ -1888,6 +1918,28 @@ static void compile_expr(CG *cg, ASTNode *node) {
         /* Regular struct field access */
         compile_expr(cg, obj);
 
+        /* A match binding holds the whole union value: the field index is the one of the variant the
+         * binding was introduced for (never the index the same field name has in another variant, union or
+         * struct). */
+        if (obj->type == AST_IDENTIFIER) {
+            Local *lb = local_entry(cg, obj->as.identifier);
+            if (lb && lb->match_union >= 0) {
+                CgUnionDef *bud = &cg->unions[lb->match_union];
+                int bv = lb->match_variant;
+                int found = -1;
+                for (int fi = 0; fi < bud->variant_field_counts[bv]; fi++) {
+                    if (strcmp(bud->variant_field_names[bv][fi], field) == 0) { found = fi; break; }
+                }
+                if (found < 0) {
+                    cg_error(cg, node->line, "variant '%s.%s' has no field '%s'",
+                             bud->name, bud->variant_names[bv], field);
+                    break;
+                }
+                emit_op(cg, OP_UNION_FIELD, found);
+                break;
+            }
+        }
+
         /* Resolve field index from the struct type */
         const char *type_name = infer_expr_struct_type(cg, obj);
 
@@ -2023,6 +2075,10 @@ static void compile_expr(CG *cg, ASTNode *node) {
             if (binding && binding[0] != '\0') {
                 emit_op(cg, OP_DUP);  /* keep union on stack */
                 uint16_t bslot = local_add(cg, binding, node->line);
+                if (ud && union_variant_index(ud, variant) >= 0) {
+                    cg->locals[bslot].match_union = (int)(ud - cg->unions);
+                    cg->locals[bslot].match_variant = union_variant_index(ud, variant);
+                }
                 emit_op(cg, OP_STORE_LOCAL, (int)bslot);
             }
 
@@ -2686,6 +2742,7 @@ CodegenResult codegen_compile(ASTNode *program, Environment *env,
             ud->variant_names = item->as.union_def.variant_names;
             ud->variant_field_counts = item->as.union_def.variant_field_counts;
             ud->variant_field_names = item->as.union_def.variant_field_names;
+            ud->variant_field_type_names = item->as.union_def.variant_field_type_names;
             ud->def_idx = cg.union_count;
             cg.union_count++;
         }
@@ -2878,6 +2935,7 @@ CodegenResult codegen_compile(ASTNode *program, Environment *env,
                             ud->variant_names = mitem->as.union_def.variant_names;
                             ud->variant_field_counts = mitem->as.union_def.variant_field_counts;
                             ud->variant_field_names = mitem->as.union_def.variant_field_names;
+                            ud->variant_field_type_names = mitem->as.union_def.variant_field_type_names;
                             ud->def_idx = cg.union_count;
                             cg.union_count++;
                         }
@@ -3044,6 +3102,7 @@ CodegenResult codegen_compile(ASTNode *program, Environment *env,
                         ud->variant_names = mitem->as.union_def.variant_names;
                         ud->variant_field_counts = mitem->as.union_def.variant_field_counts;
                         ud->variant_field_names = mitem->as.union_def.variant_field_names;
+                            ud->variant_field_type_names = mitem->as.union_def.variant_field_type_names;
                         ud->def_idx = cg.union_count;
                         cg.union_count++;
                     }
